@@ -8,6 +8,7 @@ mod c02;
 mod c03;
 mod c04;
 mod c05;
+mod c06;
 mod c07;
 mod c08;
 mod c09;
@@ -95,6 +96,7 @@ fn main() {
             "C13" => c13::replay(case),
             "C16" => c16::replay(case),
             "C18" => c18::replay(case),
+            "C06" => c06::replay(case),
             "C17" => c17::replay(case),
             "C19" => c19::replay(case),
             "C20" => c20::replay(case),
@@ -120,6 +122,7 @@ fn main() {
         "C13" => c13::run(&a),
         "C16" => c16::run(&a),
         "C18" => c18::run(&a),
+        "C06" => c06::run(&a),
         "C17" => c17::run(&a),
         "C19" => c19::run(&a),
         "C20" => c20::run(&a),
